@@ -265,6 +265,14 @@ def satRots (s : Spec) (prim : List HOp) : List M3 :=
 /-- Invariant vector for a list of systems. -/
 def invVecT (specs : List Spec) (prim : List HOp) : List Nat := specs.map fun s => count s prim
 
+/-- Linear part and time-reversal flag: what distinguishes the cosets of `T` in a (magnetic) group. -/
+def opKey (o : HOp) : M3 × Bool := (o.rot, o.tr)
+
+/-- The pairs (linear part, flag) of the list are pairwise different. -/
+def keysDistinct : List HOp → Bool
+  | [] => true
+  | o :: rest => rest.all (fun q => !(q.rot == o.rot && q.tr == o.tr)) && keysDistinct rest
+
 /-- The rotations of the list are pairwise different (keys of matrices with entries in {-1,0,1}
 are injective only there, so the entries are compared directly). -/
 def rotsDistinct : List HOp → Bool
